@@ -34,7 +34,7 @@ def query_side(ctx, h, res):
     fn = h.fn(NB)
     C = c04.consts(h)
     n = 0
-    for cls, pos, d, uh, filt in itertools.product(c04.KINDS, c04.POS, c04.DIRS[:3], c04.UHS, c04.FILTERS):
+    for cls, pos, d, uh, filt in itertools.product(c04.KINDS, c04.POS, c04.DIRS[:3], c04.UHS, c04.FILTERS[:3]):
         outs = []
         try:
             for caching in (False, True):
